@@ -371,11 +371,47 @@ class SymExec(object):
         return Opaque(unparse(n))
 
     def e_ListComp(self, n, st):
+        # a list comprehension over a value that IS a python list / tuple here (a literal, the result of a hook) with decidable filters: evaluated element by
+        # element, like the unrolled for-loop it abbreviates; everything else stays opaque
+        if isinstance(n, ast.ListComp) and len(n.generators) == 1 and not n.generators[0].is_async:
+            g = n.generators[0]
+            try:
+                it = self.ev(g.iter, st)
+            except ExtractError:
+                it = None
+            if isinstance(it, (list, tuple)) and len(it) <= 16 and (self.unroll_opaque or not any(isinstance(x, Opaque) for x in it)):
+                out = []
+                saved = dict(st.env)
+                try:
+                    for x in it:
+                        self.assign(g.target, x, st)
+                        keep = True
+                        for c in g.ifs:
+                            v = self.ev(c, st)
+                            if not isinstance(v, bool):
+                                return Opaque(unparse(n))
+                            keep = keep and v
+                        if keep:
+                            out.append(self.ev(n.elt, st))
+                finally:
+                    names = {x.id for x in ast.walk(g.target) if isinstance(x, ast.Name)}      # the comprehension variable is private to it
+                    for nm in names:
+                        if nm in saved:
+                            st.env[nm] = saved[nm]
+                        else:
+                            st.env.pop(nm, None)
+                return out
         return Opaque(unparse(n))
 
     e_GeneratorExp = e_ListComp
     e_DictComp = e_ListComp
     e_SetComp = e_ListComp
+
+    def e_Yield(self, n, st):
+        # a generator body analysed on its own (its consumer sees it fused by E0): the yielded value is an event of the path, execution goes on
+        v = self.ev(n.value, st) if n.value is not None else None
+        st.events.append(("yield", self.text(v) if v is not None else "None", v, getattr(n, "lineno", 0), tuple(l[1] for l in st.loops)))
+        return None
 
     def e_Starred(self, n, st):
         return Opaque("*" + self.text(self.ev(n.value, st)))
